@@ -64,3 +64,7 @@ Print Assumptions C08_histories_total.
 Check (C08_histories_with_cursor : forall ops v it s', dinv v -> is_response (pp_packet v) -> it_section it <> SQuestion ->
   ok_along ops (v, it) -> run_hops3 ops (v, it) = (s', Ok tt) -> dinv (fst s') /\ snd s' = it /\ is_response (pp_packet (fst s'))).
 Print Assumptions C08_histories_with_cursor.
+Check (C08_histories_with_cursor_total : forall ops v it, dinv v -> is_response (pp_packet v) -> it_section it <> SQuestion ->
+  ok_along_tol ops (v, it) ->
+  exists s', run_hops3_tol ops (v, it) = (s', Ok tt) /\ dinv (fst s') /\ snd s' = it /\ is_response (pp_packet (fst s'))).
+Print Assumptions C08_histories_with_cursor_total.
